@@ -171,12 +171,16 @@ func (s *DB) Get(key []byte) ([]byte, error) {
 		return nil, common.ErrDBIsClosed
 	}
 
+	// both batch lookups have to see the same batch content (a Remove sneaking in between would make this call return a stale value)
+	s.mutBatch.RLock()
 	if s.batch.IsRemoved(key) {
+		s.mutBatch.RUnlock()
 		return nil, common.ErrKeyNotFound
 	}
 	verifPoint("db.get.betweenBatchReads")
 
 	data := s.batch.Get(key)
+	s.mutBatch.RUnlock()
 	if data != nil {
 		return data, nil
 	}
@@ -200,12 +204,15 @@ func (s *DB) Has(key []byte) error {
 		return common.ErrDBIsClosed
 	}
 
+	s.mutBatch.RLock()
 	if s.batch.IsRemoved(key) {
+		s.mutBatch.RUnlock()
 		return common.ErrKeyNotFound
 	}
 	verifPoint("db.has.betweenBatchReads")
 
 	data := s.batch.Get(key)
+	s.mutBatch.RUnlock()
 	if data != nil {
 		return nil
 	}
